@@ -92,6 +92,10 @@ def cases(tier, seed):
     for sep in (3.0, 4.0, 5.0, 6.0):
         for neg_peak in (-0.8, -1.25):
             yield "mixed_island", dict(sep=sep, neg_peak=neg_peak)
+    # a faint companion (fitted amplitude between the flood and the seed level) on the wing of a bright source of the same sign
+    for amp_sigma in (4.0, 4.2, 4.5, 4.8):
+        for sep in (5.0, 5.5, 6.0):
+            yield "faint_companion", dict(amp_sigma=amp_sigma, sep=sep)
 
 
 def header():
@@ -215,7 +219,14 @@ def clause_a(hdr, P, N, ctx, sig):
         # standard errors); T = the largest displacement of a fitted column in units of its reported standard error
         T = 0.0
         allowance = False
+        # a (nearly) circular component has no position angle: with a reported err_pa above 20 deg neither pa nor err_pa carry
+        # information and both are left out of the comparison
+        pa_undetermined = min(float(p["err_pa"]), float(n["err_pa"])) > 20.0
+        if pa_undetermined:
+            ctx.count("a_components_with_undetermined_pa")
         for f, sgn in FITTED:
+            if f == "pa" and pa_undetermined:
+                continue
             x, y = float(p[f]), sgn * float(n[f])
             e = min(float(p["err_" + f]), float(n["err_" + f]))
             d = abs(x - y)
@@ -236,10 +247,13 @@ def clause_a(hdr, P, N, ctx, sig):
         # a component whose shape is unconstrained (reported error of an axis larger than the axis itself) comes from the
         # inverse of a numerically singular Fisher matrix (rcond ~ 1e-20): its error columns are only reproducible to a few
         # per cent, whatever the sign of the image
-        unconstrained = any(float(q["err_" + f]) > abs(float(q[f])) for q in (p, n) for f in ("a", "b") if float(q["err_" + f]) > 0)
+        unconstrained = any(float(q["err_" + f]) > abs(float(q[f])) for q in (p, n) for f in ("a", "b") if float(q["err_" + f]) > 0) \
+            or max(float(p["err_pa"]), float(n["err_pa"])) > 5.0      # nearly circular: the orientation direction of the Fisher matrix is almost degenerate
         if unconstrained:
             ctx.count("a_components_with_unconstrained_shape")
         for f in ERR_FIELDS:
+            if f == "err_pa" and pa_undetermined:
+                continue
             x, y = float(p[f]), float(n[f])
             tol = max(REL, ERR_SLOPE * min(T, FIT_PREC), 5e-2 if unconstrained else 0.0)
             if not close(x, y, tol):
@@ -336,9 +350,46 @@ def ev_mixed_island(case, ctx):
                       "(the negative half of a mixed-sign island is never catalogued)" % (sep, brief(P), brief(N)), "mixed_sign_island|" + sig)
 
 
+def ev_faint_companion(case, ctx):
+    """amplitude limits must be mirror images too: a companion of 4.0-4.8 sigma whose brightest pixel passes the seed level only
+    thanks to the wing of its bright neighbour"""
+    d = os.environ["VERIF_SCRATCH"]
+    hdr = header()
+    amp, sep = case["amp_sigma"] * SIGMA, case["sep"]
+    pt = lambda rr, cc, peak: skygauss.source_at_pixel(hdr, rr, cc, peak, BEAM_PX[0], BEAM_PX[1], BEAM_PX[2])
+    # a broad (FWHM 11.8 px) 20 sigma source: its wing is shallow enough for the companion to be a local maximum, and lifts the
+    # companion's brightest pixel above the seed level
+    broad = skygauss.source_at_pixel(hdr, 60.2, 60.4, 20 * SIGMA, 11.8, 11.8, 0.0)
+    off = sep + 3.0
+    img = skygauss.render(hdr, SHAPE, [broad, pt(60.2 + off, 60.4 + off, amp)])
+    img = np.round(img * Q) / Q
+    sig = "faint_companion:amp=%g,sep=%g" % (case["amp_sigma"], sep)
+    res = {}
+    for sign in (1.0, -1.0):
+        f = os.path.join(d, "c13_faint.fits")
+        scenes.write_image(f, hdr, sign * img)
+        try:
+            res[sign] = run(f, dict(rms=SIGMA, bkg=0.0), False, False, False)
+        except Exception as e:
+            ctx.violation("finder raised %r (%s)" % (e, sig), "raise_faint|" + sig)
+            return
+        finally:
+            os.remove(f)
+    ctx.count("faint_companion")
+    P, N = res[1.0], res[-1.0]
+    ctx.outcome("faint_companion:%d/%d" % (len(P), len(N)))
+    if len(P) >= 2:
+        ctx.nontrivial(sig)
+        amps = sorted(abs(s["peak_flux"]) / SIGMA for s in P)
+        ctx.note_max("faint_companion_min_amp_sigma_neg", -amps[0])
+    clause_a(hdr, P, N, ctx, sig)
+
+
 def evaluate(clause, case, ctx):
     if clause == "mixed_island":
         return ev_mixed_island(case, ctx)
+    if clause == "faint_companion":
+        return ev_faint_companion(case, ctx)
     d = os.environ["VERIF_SCRATCH"]
     hdr, img, bkg, rms = build_scene(case, ctx.seed)
     sig = "seq=%s,noise=%s,rms=%s,docov=%s" % ("+".join(case["seq"]), case["noise"], case["rms"], case["docov"])
